@@ -143,6 +143,12 @@ func genC04(e *emitter, r *rng, thorough bool) {
 		}
 		e.emit("path.commute", xkLine(fmt.Sprintf("seed:%s:%d", hx(seed), net), ops))
 	}
+	// siblings and zeroing: children of one parent must not share anything that Zero() on one of them wipes
+	for i := 0; i < 3; i++ {
+		root := "seed:" + hx(r.bytes(32)) + ":0"
+		e.emit("siblings.zero", xkLine(root, []string{"c0:2147483655", "c0:5", "z2", "c0:2147483648", "n1", "c0:5", "z5", "n0", "c6:1", "c6:2", "z8"}))
+		e.emit("siblings.zero.quiet", "xkq"+xkLine(root, []string{"c0:2147483655", "c0:5", "z2", "c0:2147483648", "n0", "c4:1", "c4:2", "z5"})[2:])
+	}
 	// depth-255 chain
 	{
 		var ops []string
